@@ -34,3 +34,4 @@ def run(ctx):
     fz.beta_tracks_residual(ctx)
     fz.residual_checked_against_basis(ctx)
     fz.thresholds_homogeneous(ctx)
+    fz.noise_test_reference_global(ctx)
